@@ -9,7 +9,7 @@ pub fn def() -> PropDef {
     PropDef {
         id: "C17",
         level: "exploration",
-        rule: "proptest tape -> (total stake n in [1,2^31) with boundary emphasis: 1..12, 3k-1/3k/3k+1, powers of two +-1, 2^31-1; 1..50 authorities; split equal / skewed / one dominant / with zero-stake members) -> both Committee types built from the same stakes. Oracle in u128: 3q>2n, q<=n-f with f=floor((n-1)/3), 2q-n>f, consensus q == mempool q, stake(member)=its stake, stake(unknown)=0. Non-trivial: n not a multiple of the authority count, or a zero-stake member present, or n>=2^30; distinct by (n, stake vector) hash.",
+        rule: "proptest tape -> (total stake n in [1,2^31) with boundary emphasis: 1..12, 3k-1/3k/3k+1, powers of two +-1, 2^31-1; 1..50 authorities; split equal / skewed / one dominant / with zero-stake members) -> both Committee types built from the same stakes. Oracle in u128: 3q>2n, q<=n-f with f=floor((n-1)/3), 2q-n>f, consensus q == mempool q, stake(member)=its stake, stake(unknown)=0; after one member is re-weighted in place (on clones of the queried committees) the same inequalities hold for the new total. Non-trivial: n not a multiple of the authority count, or a zero-stake member present, or n>=2^30; distinct by (n, stake vector) hash.",
         assumptions: &[
             "total stake below 2^31 (the property's stated domain; 2*total overflows u32 above it)",
             "public keys are arbitrary distinct 32-byte strings (committee arithmetic never inspects them)",
@@ -160,6 +160,42 @@ fn run(case: &Case, _ctx: &Ctx) -> Outcome {
                 format!("member {} has stake {} but consensus says {} and mempool {}", i, stakes[i], ccom.stake(k), mcom.stake(k)),
                 hist(),
             );
+        }
+    }
+    // the threshold follows the committee's CURRENT authorities: re-weight one member in place (the
+    // map is a public field, the repository's own fixtures edit it) on the queried committees and on
+    // clones of them, and ask again
+    {
+        let who = t.below(count);
+        let old = stakes[who] as u64;
+        let room = ((1u64 << 31) - 1) - (total - old);
+        let new_stake = match t.weighted(&[2, 2, 1, 1]) {
+            0 => t.range(0, room.min(12)),
+            1 => t.range(0, room),
+            2 => 0,
+            _ => room,
+        };
+        let total2 = total - old + new_stake;
+        if total2 >= 1 {
+            let mut c1 = ccom.clone();
+            let mut m1 = mcom.clone();
+            c1.authorities.get_mut(&keys[who]).unwrap().stake = new_stake as u32;
+            m1.authorities.get_mut(&keys[who]).unwrap().stake = new_stake as u32;
+            let n2 = total2 as u128;
+            let f2 = (n2 - 1) / 3;
+            for (name, qq) in [("consensus", c1.quorum_threshold() as u128), ("mempool", m1.quorum_threshold() as u128)] {
+                if !(3 * qq > 2 * n2 && qq + f2 <= n2 && 2 * qq > n2 + f2) {
+                    out.violate(
+                        "threshold-stale-after-reweighting",
+                        format!("{}: after member {}'s stake changed from {} to {} (total {} -> {}) the threshold is {} (f = {})", name, who, old, new_stake, total, total2, qq, f2),
+                        hist(),
+                    );
+                }
+            }
+            if c1.stake(&keys[who]) as u64 != new_stake || m1.stake(&keys[who]) as u64 != new_stake {
+                out.violate("member-stake-wrong", format!("member {} re-weighted to {} but the committee says {} / {}", who, new_stake, c1.stake(&keys[who]), m1.stake(&keys[who])), hist());
+            }
+            out.class("re-weighted-in-place");
         }
     }
     let unknown = key(count + 7, salt ^ 0x55);
